@@ -77,6 +77,7 @@ func Cases(tier string, withCap bool) []corr.Case {
 		}
 		add("trypop", "syncq", 10000, 2)
 		add("runner", "async", 400, 2)
+		out = append(out, corr.Case{Tag: "stress-runnercap", Lines: []string{"stress runnercap async 1"}})
 	} else {
 		add("runner", "async", 400, 1)
 	}
